@@ -5,6 +5,21 @@ import TephraProps.C03Lexer
 #print axioms Tephra.Props.C03_lexer_positions_partial
 #print axioms Tephra.Props.C03_lexer_step
 #print axioms Tephra.Props.C03_lexer_new
-#print axioms Tephra.Props.C03_lexer_builder_order_violates
-#print axioms Tephra.Props.tabP_closed
+#print axioms Tephra.Props.C03_lexer_mstep
+#print axioms Tephra.Props.C03_lexer_positions
+#print axioms Tephra.Props.C03_lexer_positions_measure
 #print axioms Tephra.Props.C03_run_spans
+#print axioms Tephra.Props.tabP_closed
+#print axioms Tephra.Props.tabP_remeasure
+#print axioms Tephra.Props.C03_measure_canonical
+#print axioms Tephra.Props.C03_measure_canonical_at
+#print axioms Tephra.Props.C03_measure_isCanon
+#print axioms Tephra.Props.C03_lexer_canonical
+#print axioms Tephra.Props.C03_lexer_canonical_prefix
+#print axioms Tephra.Props.C03_lexer_isCanon
+#print axioms Tephra.Props.C03_harness_closed
+#print axioms Tephra.Props.C03_harness_lexer_canonical
+#print axioms Tephra.Props.crlfScan_closed
+#print axioms Tephra.Props.C03_lexer_isCanon_per_metrics_fails
+#print axioms Tephra.Props.f11_withFilter
+#print axioms Tephra.Props.C03_former_F11_witness
